@@ -77,6 +77,11 @@ impl<'a> ImmutContext<'a> {
         state_index: StateIndex,
         item: &'a StateItem,
     ) -> Result<(), KikiErr> {
+        #[cfg(feature = "verif")]
+        crate::verif::record(|| crate::verif::Event::ScanItem {
+            state: state_index.0,
+            item: item.clone(),
+        });
         match item.rule_index {
             RuleIndex::Augmented => {
                 self.add_augmented_item_action_to_table(builder, state_index, item)
